@@ -101,6 +101,8 @@ func main() {
 		"failmod: flag set x failing privileged modifier (5) x failure mechanism (PrePut veto, read-only runtime provider) x plain/cached actor, then get/query/subscription/API/delete probes by every non-privileged observer; " +
 		"ws: flag set x how flagged x API message kind over the real /api/database/v1 websocket endpoint; " +
 		"how flagged now includes privileged PutNew of a pre-flagged record, PutNew with AlwaysMake* options and load + PutNew; " +
+		"table write paths also run under four non-canonical spellings of the key (same record only on fstree); on the injected runtime registry: records of exact-key providers (get, parent-prefix query, query with prefix == key) and writes while the provider's lookup fails; " +
+		"non-privileged observers with Always* options on every interface path; " +
 		"table also holds non-privileged observers created with DelayCachedWrites on the batch-capable storages (put, putmany, held-back write + flush / + eviction); " +
 		"hist: PRNG histories over 6 keys with persistent observers. A case is distinct by its cell signature (table/reflag) or by the hash of its operation script (hist); all cells are non-trivial (each performs at least one operation through the observer on a record written by the privileged side).")
 
